@@ -291,6 +291,7 @@ func dumpErrStrings(s sink, err error) {
 	s.tag("err")
 	s.push()
 	guard(s, "Error()", func() { s.str(err.Error()) })
+	guard(s, "MultiError(nil).Error()", func() { s.str(memefish.MultiError(nil).Error()) })
 	switch e := err.(type) {
 	case memefish.MultiError:
 		guard(s, "FullError()", func() { s.str(e.FullError()) })
@@ -301,6 +302,7 @@ func dumpErrStrings(s sink, err error) {
 				continue
 			}
 			guard(s, "Error.Error()", func() { s.str(x.Error()) })
+			guard(s, "Error.String()", func() { s.str(x.String()) })
 			guard(s, "Error.FullError()", func() { s.str(x.FullError()) })
 			if x.Position != nil {
 				guard(s, "Position.String()", func() { s.str(x.Position.String()) })
@@ -646,6 +648,23 @@ func writeVariant(s sink, sub *subject, v int) {
 						guard(s, "QuoteSQLBytes", func() { s.str(token.QuoteSQLBytes(x.Value)) })
 					case *ast.Ident:
 						guard(s, "QuoteSQLIdent", func() { s.str(token.QuoteSQLIdent(x.Name)) })
+					case *ast.Options:
+						// the typed accessors of OPTIONS(...) lists, for every name present and one absent
+						names := []string{"no_such_option"}
+						for _, r := range x.Records {
+							if r != nil && r.Name != nil {
+								names = append(names, r.Name.Name)
+							}
+						}
+						for _, nm := range names {
+							guard(s, "Options.Field", func() {
+								e, ok := x.Field(nm)
+								s.tag(fmt.Sprintf("%T %v", e, ok))
+							})
+							guard(s, "Options.BoolField", func() { v, err := x.BoolField(nm); dumpAny(s, v); dumpAny(s, fmt.Sprint(err)) })
+							guard(s, "Options.IntegerField", func() { v, err := x.IntegerField(nm); dumpAny(s, v); dumpAny(s, fmt.Sprint(err)) })
+							guard(s, "Options.StringField", func() { v, err := x.StringField(nm); dumpAny(s, v); dumpAny(s, fmt.Sprint(err)) })
+						}
 					}
 					if idx%3 == 0 {
 						guard(s, "File.Position", func() {
